@@ -123,6 +123,32 @@ func (s *seatRun) onlyTouched(x int) bool {
 	return true
 }
 
+// PlayerInfo is an empty interface: strings, pointers, and values that Go cannot compare with ==
+// (a struct with a slice, a map as a JSON-restored player would be)
+func (s *seatRun) playerInfo() sm.PlayerInfo {
+	id := fmt.Sprintf("p%d", s.pid)
+	switch s.pid % 5 {
+	case 1:
+		return &struct{ ID string }{id}
+	case 2:
+		return struct {
+			ID   string
+			Tags []string
+		}{id, []string{"x"}}
+	case 3:
+		return map[string]interface{}{"id": id}
+	case 4:
+		if s.pid%10 == 4 {
+			// the same uncomparable value joining again (a player value kept by the caller)
+			return struct {
+				ID   string
+				Tags []string
+			}{"regular", []string{"x"}}
+		}
+	}
+	return id
+}
+
 func dealerID(m *sm.SeatManager) int {
 	if d := m.Dealer(); d != nil {
 		return d.ID
@@ -145,7 +171,7 @@ func (s *seatRun) apply(op SeatOp) {
 		switch op.Kind {
 		case 'J':
 			s.pid++
-			sid, err = m.Join(op.Seat, fmt.Sprintf("p%d", s.pid))
+			sid, err = m.Join(op.Seat, s.playerInfo())
 		case 'S':
 			err = m.Seat(op.Seat)
 		case 'R':
